@@ -124,6 +124,27 @@ func registerSymAPI(e *Engine) {
 		fr.ex.res.Bounds["param."+name] = fmt.Sprint(v)
 		return v
 	})
+	// Visited(key, remaining): explicit-state pruning for fully concrete harness
+	// states: true if this key was already explored with at least as much depth left.
+	e.reg(p+"Visited", func(fr *frame, args []value) value {
+		key := strArg(args[0])
+		rem := int(asInt64c(args[1]))
+		eng := fr.ex.eng
+		if fr.ex.cursor < len(fr.ex.prefix) {
+			return false // replaying a recorded prefix: these states belong to the path being extended
+		}
+		eng.mu.Lock()
+		defer eng.mu.Unlock()
+		if eng.visited == nil {
+			eng.visited = map[string]int{}
+		}
+		if old, ok := eng.visited[key]; ok && old >= rem {
+			eng.visitedHits++
+			return true
+		}
+		eng.visited[key] = rem
+		return false
+	})
 	e.reg(p+"Symbolic", func(fr *frame, args []value) value { return true })
 	// Ite(c, a, b): branch-free selection for harness oracles
 	e.reg(p+"IteU64", func(fr *frame, args []value) value {
